@@ -15,7 +15,7 @@ def main(out):
     calls = []
 
     def fake_remote(remote=None, dataset_filename=None, dataset_folder=None, **kw):
-        calls.append(("remote", remote.url, remote.checksum, remote.filename, f"{dataset_folder}/{dataset_filename}"))
+        calls.append(("remote", remote.url, remote.checksum, remote.filename, os.path.normpath(f"{dataset_folder}/{dataset_filename}")))
         return "DATA"
 
     def fake_res(file_name, *a, **kw):
